@@ -433,6 +433,9 @@ func ruleGRDcap(w *World, r *Report) {
 			continue
 		}
 		top := w.SSAFunc(fi.Obj)
+		if p := paramNamed(top, s.param, 0, isPlainInt); p != nil && !hasParamRecordField(top, s.param) {
+			s.param = p.Name() // the limit is the first int parameter, whatever it is called
+		}
 		var uncapped func(fn *ssa.Function, param string, depth int) (bool, []ssa.Instruction)
 		uncapped = func(fn *ssa.Function, param string, depth int) (bool, []ssa.Instruction) {
 			capCmp := func(in ssa.Instruction) bool {
@@ -503,6 +506,170 @@ func ruleGRDcap(w *World, r *Report) {
 	}
 }
 
+// paramNamed: the parameter of fn called name or — parameters get renamed — the nth (0-based) parameter of fn, after the
+// receiver, that satisfies is: the role is fixed by the position in the signature, the name is only how it is usually found.
+func paramNamed(fn *ssa.Function, name string, nth int, is func(types.Type) bool) *ssa.Parameter {
+	for _, p := range fn.Params {
+		if p.Name() == name {
+			return p
+		}
+	}
+	ps := fn.Params
+	if fn.Signature.Recv() != nil && len(ps) > 0 {
+		ps = ps[1:]
+	}
+	k := 0
+	for _, p := range ps {
+		if is(p.Type()) {
+			if k == nth {
+				return p
+			}
+			k++
+		}
+	}
+	return nil
+}
+
+func isPlainInt(t types.Type) bool { return basicKind(t) == types.Int }
+
+// hasParamRecordField: fn takes a struct-typed parameter with a field of that name (the arguments travel in a record).
+func hasParamRecordField(fn *ssa.Function, name string) bool {
+	for _, p := range fn.Params {
+		t := p.Type()
+		if pt, ok := t.Underlying().(*types.Pointer); ok {
+			t = pt.Elem()
+		}
+		if st, ok := t.Underlying().(*types.Struct); ok && !strings.HasSuffix(t.String(), "Engine") && !strings.HasSuffix(t.String(), "Index") {
+			for i := 0; i < st.NumFields(); i++ {
+				if st.Field(i).Name() == name {
+					return true
+				}
+			}
+		}
+	}
+	return false
+}
+
+// comparatorDescending: cmp is a func(a, b T) int over float-valued keys that orders greater keys first.
+func comparatorDescending(cmp *ssa.Function) bool {
+	if len(cmp.Params) != 2 {
+		return false
+	}
+	side := func(v ssa.Value) int { // 0: derives from a, 1: from b, -1: neither
+		for _, rt := range append(valueRoots(v), v) {
+			for {
+				switch x := rt.(type) {
+				case *ssa.Field:
+					rt = x.X
+					continue
+				case *ssa.UnOp:
+					rt = x.X
+					continue
+				case *ssa.FieldAddr:
+					rt = x.X
+					continue
+				case *ssa.IndexAddr:
+					// a permutation of indexes is being sorted: the parameter selects the element
+					for i, p := range cmp.Params {
+						if x.Index == ssa.Value(p) || capturedParam(x.Index) == p {
+							return i
+						}
+					}
+					rt = x.X
+					continue
+				case *ssa.Alloc: // a struct parameter spilled to a local so that its field can be addressed
+					if sts := cellStores(x); len(sts) == 1 {
+						if _, isP := sts[0].Val.(*ssa.Parameter); isP {
+							rt = sts[0].Val
+						}
+					}
+				}
+				break
+			}
+			for i, p := range cmp.Params {
+				if rt == ssa.Value(p) || capturedParam(rt) == p {
+					return i
+				}
+			}
+		}
+		return -1
+	}
+	signOf := func(v ssa.Value) int {
+		if c, ok := constInt(v); ok {
+			switch {
+			case c < 0:
+				return -1
+			case c > 0:
+				return 1
+			}
+		}
+		return 0
+	}
+	desc, asc := false, false
+	for _, b := range cmp.Blocks {
+		for _, in := range b.Instrs {
+			switch x := in.(type) {
+			case *ssa.BinOp:
+				if (x.Op != token.GTR && x.Op != token.LSS) || !isFloat(x.X.Type()) {
+					continue
+				}
+				l, r := side(x.X), side(x.Y)
+				if l < 0 || r < 0 || l == r {
+					continue
+				}
+				aGreater := (x.Op == token.GTR && l == 0) || (x.Op == token.LSS && l == 1) // "a's key > b's key" on the true edge
+				t, _ := condEdges(x)
+				for _, e := range t {
+					// the first return reached from the true edge
+					for _, rb := range cmp.Blocks {
+						rt, ok := rb.Instrs[len(rb.Instrs)-1].(*ssa.Return)
+						if !ok || len(rt.Results) != 1 {
+							continue
+						}
+						if e.from.Succs[e.succ] != rb {
+							continue
+						}
+						sg := signOf(retVal(rt, 0))
+						if ph, isPhi := retVal(rt, 0).(*ssa.Phi); isPhi && sg == 0 {
+							for pi, pe := range ph.Edges {
+								if ph.Block().Preds[pi] == e.from {
+									sg = signOf(pe)
+								}
+							}
+						}
+						if sg == 0 {
+							continue
+						}
+						if (aGreater && sg < 0) || (!aGreater && sg > 0) {
+							desc = true
+						} else {
+							asc = true
+						}
+					}
+				}
+			case *ssa.Call:
+				g := x.Call.StaticCallee()
+				if g == nil {
+					continue
+				}
+				o := g
+				if g.Origin() != nil {
+					o = g.Origin()
+				}
+				if o.Pkg != nil && o.Pkg.Pkg.Path() == "cmp" && o.Name() == "Compare" && len(x.Call.Args) == 2 {
+					l, r := side(x.Call.Args[0]), side(x.Call.Args[1])
+					if l == 1 && r == 0 {
+						desc = true
+					} else if l == 0 && r == 1 {
+						asc = true
+					}
+				}
+			}
+		}
+	}
+	return desc && !asc
+}
+
 // paramFedBy: the name of helper h's parameter that top feeds with its own parameter `name` at every call ("" if none).
 func paramFedBy(top, h *ssa.Function, name string) string {
 	out := ""
@@ -530,11 +697,25 @@ func ruleGRDorder(w *World, r *Report) {
 			continue
 		}
 		fn := w.SSAFunc(fi.Obj)
+		isSlicesSort := func(in ssa.Instruction) bool {
+			c, ok := in.(*ssa.Call)
+			if !ok || c.Call.StaticCallee() == nil {
+				return false
+			}
+			o := c.Call.StaticCallee()
+			if o.Origin() != nil {
+				o = o.Origin()
+			}
+			return o.Pkg != nil && o.Pkg.Pkg.Path() == "slices" && (o.Name() == "SortFunc" || o.Name() == "SortStableFunc")
+		}
 		isSortCall := func(in ssa.Instruction) bool {
-			return isCallTo(in, "sort", "Slice") || isCallTo(in, "sort", "SliceStable")
+			return isCallTo(in, "sort", "Slice") || isCallTo(in, "sort", "SliceStable") || isSlicesSort(in)
 		}
 		sorts := findInstrs(fn, isSortCall)
 		rankFn, kName := fn, "k"
+		if p := paramNamed(fn, "k", 0, isPlainInt); p != nil && !hasParamRecordField(fn, "k") {
+			kName = p.Name()
+		}
 		if len(sorts) == 0 { // the ranking phase (translate, sort, cut) may be a function of its own, handed the limit
 			for _, h := range w.extractedHelpers(fn) {
 				if hs := findInstrs(h, isSortCall); len(hs) > 0 && len(sorts) == 0 {
@@ -550,11 +731,18 @@ func ruleGRDorder(w *World, r *Report) {
 		for _, s := range sorts {
 			c := s.(*ssa.Call)
 			var less *ssa.Function
-			if mc, ok := c.Call.Args[1].(*ssa.MakeClosure); ok {
-				less, _ = mc.Fn.(*ssa.Function)
+			switch f := stripConv(c.Call.Args[1]).(type) {
+			case *ssa.MakeClosure:
+				less, _ = f.Fn.(*ssa.Function)
+			case *ssa.Function: // a function literal that captures nothing
+				less = f
 			}
 			desc := false
-			if less != nil {
+			if less != nil && isSlicesSort(s) {
+				// a three-way comparator func(a, b T) int: descending when "a's score is greater" answers a negative number (or
+				// "a's score is smaller" a positive one), or when it is cmp.Compare(b.score, a.score)
+				desc = comparatorDescending(less)
+			} else if less != nil {
 				for _, b := range less.Blocks {
 					for _, in := range b.Instrs {
 						if bo, ok := in.(*ssa.BinOp); ok && bo.Op == token.GTR && isFloat(bo.X.Type()) {
